@@ -667,6 +667,8 @@ func runC12(w *World) *Result {
 	r.Rule("R-C12-drop", "SPACE/COMMENT never appended; CRLF normalised before the loop", 2)
 	r.Rule("R-C12-pos", "Token.Row/Column results reach only error constructors", 2)
 	r.Rule("R-C12-nl", "after each required NEWLINE the next token decision accepts NEWLINE", 3)
+	r.Rule("R-C12-eof", "the one-character accessor of the lexer returns the character at every position below the length: the last character of a file that does not end in a newline is seen", 1)
+	CharAccessRule(w, r, "R-C12-eof")
 	r.Rule("R-C12-sign", "probes overlapping punctuation are conditioned on the previous token, and the conditioning set holds every token type that can end an integer operand", 2)
 	lf, err := BuildLexFacts(w)
 	if err != nil {
